@@ -191,6 +191,7 @@ fn lazy_book(k: usize, tag: &str) -> Spreadsheet {
         src.get_sheet_mut(&0).unwrap().get_cell_mut((1u32, (i + 1) as u32)).set_value_string(format!("A-{}", i));
         src.get_sheet_mut(&1).unwrap().get_cell_mut((1u32, (i + 1) as u32)).set_value_string(format!("R-{}", i));
     }
+    add_chart(&mut src, k);
     let mut cur = std::io::Cursor::new(Vec::new());
     writer::xlsx::write_writer(&src, &mut cur).unwrap();
     cur.set_position(0);
@@ -204,6 +205,18 @@ fn lazy_book(k: usize, tag: &str) -> Spreadsheet {
         }
     }
     b
+}
+
+/// a chart over the text cells: its cached points are content of the file as well (they differ between clones whose cells differ)
+fn add_chart(b: &mut Spreadsheet, k: usize) {
+    let mut from = umya_spreadsheet::structs::drawing::spreadsheet::MarkerType::default();
+    let mut to = umya_spreadsheet::structs::drawing::spreadsheet::MarkerType::default();
+    from.set_coordinate("D2");
+    to.set_coordinate("H12");
+    let series = format!("Sheet1!$A$1:$A${}", k.max(1));
+    let mut chart = Chart::default();
+    chart.new_chart(ChartType::LineChart, from, to, vec![series.as_str()]);
+    b.get_sheet_mut(&0).unwrap().add_chart(chart);
 }
 
 /// numeric cells far to the right (three-letter columns): anything a saver computes per column is exercised as well.
@@ -243,6 +256,7 @@ fn make_books_inner(k: usize, mode: &str, share: bool, nsavers: usize) -> Vec<Ar
         a.get_sheet_mut(&0).unwrap().get_cell_mut((1u32, (i + 1) as u32)).set_value_string(format!("A-{}", i));
     }
     far_cells(&mut a, k, 0, ROUND.with(|r| r.get()));
+    add_chart(&mut a, k);
     if share {
         let a = Arc::new(a);
         return (0..nsavers).map(|_| a.clone()).collect();
